@@ -26,9 +26,15 @@ RULE = (
     "(stats, 15%) the same per-rule enumeration + exact composition + whole-sequence cross-check on REAL specifications over "
     "words WITH STATISTICS (harness/universes/c08_stats.py: parameters kept, summed over a product, dropped when identically "
     "0 -> `zeroes`, two parent parameters on one child parameter -> contradiction skipping), for every (n, parameters), "
-    "uniform among the brute-force objects with those parameters; 4% of these start from a class without statistics with a "
-    "unary union ADDING a statistic in the pack (known finding, see known_findings.json); the real DisjointUnion/CartesianProduct objects of the "
-    "specification are described to the constructor-level model. "
+    "uniform among the brute-force objects with those parameters; the real DisjointUnion/CartesianProduct objects of the "
+    "specification are described to the constructor-level model; AND the whole specification (kinds, parameter names, "
+    "get_minimum_value, the constructors' extra_parameters / fixed_values dictionaries, get_terms tables) is described to "
+    "the specification-level model WITH parameters (Count/SampleModelParams.v psample / pspec_sample): every draw sequence "
+    "of the real recursive random_sample_object_of_size(n, **params) (trace of (lo, hi, value) and the parse tree recorded "
+    "by wrapping the sub-samplers) is compared with the model's `enum` for every (n, params) incl. parameter values nobody "
+    "has, plus explicit in- and out-of-range draw sequences; the hypotheses of C08_uniform_params are checked by brute force "
+    "on every such specification (tag hypotheses-hold / fixed-dishonest); 4% of these start from a class without statistics "
+    "with a unary union ADDING a statistic in the pack (known finding, see known_findings.json: there fixed_honest fails). "
     "(rules, 65%) synthetic constructor-level cases: real DisjointUnion / CartesianProduct objects built from stub classes "
     "with random extra_parameters / fixed_values / minimum values and random term tables, all r in 0..count+1; a 'sane' "
     "half (every child parameter determined, tables respecting fixed values and minima; oracle: #r per branch = the number "
@@ -38,9 +44,11 @@ RULE = (
     "size; a rules case where some r-range hits >= 2 distinct branches."
 )
 TECHNIQUE = (
-    "Coq proof (threshold lemma, specification of _valid_compositions against the REGENERATED utils.compositions, exact "
-    "uniformity over Q by induction on parse trees) + extracted-model/implementation correspondence under an enumerating "
-    "random source + exact composition of per-rule distributions against brute-force object sets"
+    "Coq proof (threshold lemma; specification of _valid_compositions against the REGENERATED utils.compositions; exact "
+    "uniformity over Q by induction on parse trees, without and WITH extra parameters — the sampling weights are compared with "
+    "the tables DisjointUnion/CartesianProduct.get_terms compute in C09's vocabulary; uniqueness of the counts through C01's "
+    "evaluation theorem) + extracted-model/implementation correspondence under an enumerating random source (per rule and per "
+    "whole draw sequence, with parameters) + exact composition of per-rule distributions against brute-force object sets"
 )
 LEVEL_TEXT = (
     "Theorems C08_* (coq/theories/Props/C08.v). C08_threshold / _interval: for ANY list of branches with non-raising, "
@@ -54,32 +62,70 @@ LEVEL_TEXT = (
     "C08_uniform: for every specification of atoms, unions and products without parameters whose counts satisfy the get_terms "
     "recurrences and whose classes honour the minimum-size/atom contract, the specification-level sampler returns every parse "
     "tree t of the root with probability exactly 1/count(size t) (probability semantics over Q of independent uniform "
-    "draws); C08_counted, C08_support; C08_reject_empty: count 0 => InvalidOperationError and no draw consumed."
+    "draws); C08_counted, C08_support; C08_reject_empty: count 0 => InvalidOperationError and no draw consumed. "
+    "C08_equivalence_step / _path: equivalence rules and equivalence paths are one-child unions (covered by C08_uniform); "
+    "such a step or chain preserves the count and the distribution exactly. "
+    "C08_uniform_true_counts (+ C08_rules_local): with the rules packaged as C01's term operators (locality proved), if T is "
+    "the true enumeration (genuine rules) and the root is productive, ANY table satisfying the recurrences equals T on the "
+    "root (C01 unique_solution), so every parse tree has probability 1/(true number of objects). "
+    "C08_uniform_params: the same END-TO-END statement for specifications whose classes carry extra parameters: sampling "
+    "with a parameter assignment returns every parse tree of the root with that size AND those parameter values with "
+    "probability exactly 1/count(size, parameters) — unions whose dictionaries drop, rename or merge statistics (zeroes, "
+    "contradiction skipping), fixed_values, products splitting the parameters over _valid_compositions; hypotheses: the "
+    "tables are what DisjointUnion/CartesianProduct.get_terms compute (C09's union_table / product_table / dict_sem), "
+    "well-formed dictionaries (C09's wf_dict, values among the child's parameters), every child parameter determined "
+    "(mapped or fixed; mapped for products), honest minimum_size/is_atom/get_minimum_value, and fixed_honest (a fixed value "
+    "is the value on every object of the child). C08_counted_params, C08_support_params (no fixed_honest needed), "
+    "C08_reject_empty_params; C08_union_weights_params / C08_product_weights_params: at every rule of such a specification "
+    "no weight computation raises and the walk's total is at most the count get_terms computes (each product weight is the "
+    "mass of a distinct set of the combinations get_terms sums over); C08_union_total_params / C08_product_total_params: "
+    "with fixed_honest (unions) and table keys of the right arity the total EQUALS the count, hence "
+    "C08_draws_return_union_params / _product_params: every draw r in 1..count returns a child / composition with the "
+    "dictionaries of its sub-samplers (no RuntimeError, no other exception) and every r above raises RuntimeError; "
+    "C08_pick_dict_union/_product: the specification-level "
+    "walks choose what union_pick/prod_pick (compared draw by draw with the code) choose; C08_path_dictionary / "
+    "_path_fixed_determined / _path_fixed_honest: the constructor EquivalencePathRule builds (C09's composed dictionary, "
+    "fixed_values {k: 0}) determines every parameter, and fixed_honest means there exactly that untracked statistics are 0 on "
+    "all objects; C08_uniform_params_refuted: with every hypothesis but fixed_honest the conclusion is FALSE in the model "
+    "(all words over {a,b} under a root tracking nothing: 'a' has probability 0, count 2, the draw r=2 raises RuntimeError) "
+    "— the open finding. Examples: words over {a,b} counting a's (binomial tables) satisfy every hypothesis."
 )
 LEVEL_NOTE = (
-    "End-to-end uniformity is proved for parameter-free specifications over parse trees; with extra parameters the "
-    "per-rule statements (threshold, valid compositions) are proved and the composition is checked exactly by the harness on "
-    "real specifications with statistics. Objects = parse trees: that distinct parse trees are distinct objects and "
-    "backward maps are bijections is C07's contract (checked here by brute force on every case). Modelled, not verified: "
-    "the hand transcription in Count/SampleModel.v, tied by the correspondence. KNOWN FINDING (in the corpus and in 4% of the "
-    "stats stream, judged by the oracle, matched by finding_match as 'eqpath-child-statistic-untracked-by-parent-sampling'): an "
-    "EquivalencePathRule whose child has a parameter the parent lacks fixes it to 0 when sampling while counting sums over "
-    "all its values -> RuntimeError on in-range draws / non-uniform although the count is right; the model reproduces it "
-    "(fixed_values are modelled), so model and implementation agree there and only the oracle fails."
+    "Objects = parse trees: that distinct parse trees are distinct objects and backward maps are bijections is C07's "
+    "contract (checked here by brute force on every case). C08_uniform_params needs fixed_honest, which EXCLUDES exactly the "
+    "open known finding 'eqpath-child-statistic-untracked-by-parent-sampling' (in the corpus and in 4% of the stats stream, "
+    "judged by the oracle, matched by finding_match only when fixed_honest fails on that specification): an EquivalencePathRule "
+    "whose child has a parameter the parent lacks fixes it to 0 when sampling while counting sums over all its values -> "
+    "RuntimeError on in-range draws / non-uniform although the count is right; the model reproduces it (fixed_values are "
+    "modelled; C08_uniform_params_refuted is that situation), so model and implementation agree there and only the oracle fails. "
+    "Not stated: 'the probabilities of all parse trees add up to 1' (it follows from C08_uniform_params and count = number "
+    "of parse trees, C07/C09's statement); per rule the equivalent fact IS proved (total of the weights = count, every "
+    "in-range draw returns). C08_uniform_true_counts is for parameter-free specifications (with parameters the counts are linked to get_terms through "
+    "C09's tables, not through C01's evaluation). Verification atoms with parameters are modelled as the universe's StatAtom "
+    "(the repo's AtomStrategy raises NotImplementedError with parameters): the sampler ignores the parameters. "
+    "Modelled, not verified: the hand transcriptions Count/SampleModel.v and Count/SampleModelParams.v, tied by the "
+    "correspondence."
 )
 TRUSTED = [
     "probability semantics Count/SampleProb.v `prob` (independent uniform draws, exceptions = no value) — a definition",
     "translator harness/translate.py for Gen/Compositions.v (validated by C10 on every run of C10)",
-    "modelled, not verified: Count/SampleModel.v (walk, union_pick, valid_comps/helper, prod_pick, sample, spec_sample) — "
-    "hand transcription of disjoint.py / cartesian.py / rule.py / specification.py, tied by per-draw comparison",
+    "modelled, not verified: Count/SampleModel.v (walk, union_pick, valid_comps/helper, prod_pick, sample, spec_sample) and "
+    "Count/SampleModelParams.v (union_pick_dict, prod_pick_dict, kid tables, psample, pspec_sample, path_dict/path_fixed) — "
+    "hand transcription of disjoint.py / cartesian.py / rule.py / specification.py, tied by per-draw and per-sequence comparison",
     "the enumerating random source of harness/props/c08.py replaces random.randint / random.choice (randint on an empty "
     "range raises ValueError as random.randint does)",
     "harness/universes/c08_stats.py (word classes with statistics, user-level strategies) — checked against brute force",
+    "definitions the statements are written in: ptsize / tpar / pwf and the hypothesis predicates of Count/SampleParamsSpec.v; "
+    "C09's dict_sem / union_table / product_table (Count/Constructors*.v); C01's srule / genuine / local / pumps (Spec/Eval.v, Forest/Spec.v)",
 ]
 ASSUMPTIONS = [
     "counts are what get_terms computes (C01/C09) and are non-negative; classes honour minimum_size_of_object / is_atom / "
-    "get_minimum_value (hypotheses of C08_uniform, checked by brute force on the shipped universes in every case)",
-    "C08_uniform: no extra parameters, rules are atoms / disjoint unions / Cartesian products with one object per parse tree",
+    "get_minimum_value (hypotheses of C08_uniform / C08_uniform_params, checked by brute force on the shipped universes in every case)",
+    "C08_uniform: no extra parameters, rules are atoms / disjoint unions (incl. equivalence rules and paths) / Cartesian "
+    "products with one object per parse tree",
+    "C08_uniform_params: well-formed dictionaries, every child parameter determined, fixed_honest (excludes the open finding); "
+    "Complement / Quotient constructors do not support sampling in the code (NotImplementedError) and are outside",
+    "C08_uniform_true_counts: T genuine for the rules and the root productive (C03/C11 for forest searches)",
     "threshold theorems: no KeyError while computing a weight (every non-skipped child finds its parameters)",
     "a product rule has at least one child; the keys of **parameters are exactly the parent's extra parameters",
 ]
@@ -279,6 +325,83 @@ def describe_words(spec, upto):
         desc.append([k, c.minimum_size_of_object(), int(bool(c.is_atom())), [label[ch] for ch in rule.children]])
         counts.append([rule.count_objects_of_size(m) for m in range(upto + 1)])
     return [desc, counts], label[spec.root]
+
+
+def _vids():
+    names = {}
+
+    def vid(name):
+        if name not in names:
+            names[name] = len(names) + 1
+        return names[name]
+    return vid
+
+
+def describe_stats(spec, upto, vid=None):
+    """(classes, tables, root label) of a specification WITH extra parameters, as sent to the model
+    (Count/SampleModelParams.v): class = [kind, min, is_atom, kids, params, minval, eps, fixed]; tables = per
+    class, per size 0..upto, the Counter rule.get_terms(size) as [[tuple, count] ...]"""
+    vid = vid or _vids()
+    classes = spec_classes(spec)
+    label = {c: i for i, c in enumerate(classes)}
+    desc, tables = [], []
+    for c in classes:
+        rule = spec.rules_dict[c]
+        k = rule_kind(rule)
+        eps, fixed = [], []
+        if k in (K_UNION, K_PRODUCT):
+            cons = rule.constructor
+            eps = [[[vid(a), vid(b)] for a, b in ep.items()] for ep in cons.extra_parameters]
+            if k == K_UNION:
+                fixed = [[[vid(a), b] for a, b in fx.items()] for fx in cons.fixed_values]
+        desc.append([
+            k, c.minimum_size_of_object(), int(bool(c.is_atom())), [label[ch] for ch in rule.children],
+            [vid(a) for a in c.extra_parameters],
+            [[vid(a), c.get_minimum_value(a)] for a in c.extra_parameters],
+            eps, fixed,
+        ])
+        tables.append([[[list(t), v] for t, v in sorted(rule.get_terms(m).items())] for m in range(upto + 1)])
+    return [desc, tables], label[spec.root], vid
+
+
+def path_rules(spec, vid):
+    """every EquivalencePathRule of the specification as the model's input [first, steps, last] together with the
+    real constructor's [dictionary, fixed_values] (EquivalencePathRule.constructor); Complement steps contribute
+    the inverted dictionary, as in the code (paths through a Complement with duplicate values raise
+    NotImplementedError there and are left out)"""
+    from comb_spec_searcher.strategies.constructor import Complement
+    from comb_spec_searcher.strategies.rule import EquivalencePathRule
+
+    res = []
+    for c in spec_classes(spec):
+        rule = spec.rules_dict[c]
+        if not isinstance(rule, EquivalencePathRule):
+            continue
+        steps, ok = [], True
+        for r in rule.rules:
+            cons = r.constructor
+            d = dict(cons.extra_parameters[0])
+            if isinstance(cons, Complement):
+                if len(set(d.values())) != len(d):
+                    ok = False
+                d = {b: a for a, b in d.items()}
+            steps.append([[vid(a), vid(b)] for a, b in d.items()])
+        if not ok:
+            continue
+        real = rule.constructor
+        res.append((
+            [[vid(a) for a in c.extra_parameters], steps, [vid(a) for a in rule.children[0].extra_parameters]],
+            [[[vid(a), vid(b)] for a, b in real.extra_parameters[0].items()],
+             [[vid(a), b] for a, b in real.fixed_values[0].items()]],
+        ))
+    return res
+
+
+def stat_draws(case):
+    """explicit (also out-of-range) draw sequences for the stats stream, derived from the case (so that old
+    corpus cases get them too)"""
+    return [[case["N"], []], [min(2, case["N"]), [1, 0, 1, 0, 1, 0]], [min(3, case["N"]), [2, 0, 2, 0, 1, 0, 1, 0]],
+            [min(2, case["N"]), [0]], [min(3, case["N"]), [40]]]
 
 
 # ------------------------------------------------------------------ constructor-level descriptors
@@ -762,7 +885,20 @@ def encode(case):
         enc = [9, cmds]
     else:
         items, _ = stat_items(spec, case["N"])
-        enc = [0, [enc_item(it) for it in items]]
+        cmds = [[0, [enc_item(it) for it in items]]]
+        # the specification-level sampler with parameters (Count/SampleModelParams.v)
+        desc, root, vid = describe_stats(spec, case["N"])
+        fuel = _fuel(desc, case["N"])
+        for n in range(eff_nseq(spec, case["nseq"]) + 1):
+            for params, _objs in root_params(spec, n):
+                cmds.append([6, desc, root, n, [[vid(a), b] for a, b in params.items()], fuel])
+        for n, ds in stat_draws(case):
+            params = root_params(spec, n)[0][0]
+            cmds.append([5, desc, root, n, [[vid(a), b] for a, b in params.items()], fuel, [ds]])
+        # EquivalencePathRule.constructor (model: path_dict / path_fixed)
+        for inp, _real in path_rules(spec, vid):
+            cmds.append([7] + inp)
+        enc = [9, cmds]
     _ENC[key] = enc
     return enc
 
@@ -943,6 +1079,113 @@ def check_hypotheses(spec, classes, label, upto):
     return ["hypothesis of C08_uniform does not hold on this specification: " + b for b in bad[:2]]
 
 
+def check_hypotheses_params(spec, classes, upto):
+    """the hypotheses of theorem C08_uniform_params on this specification (non-vacuity), sizes 0..upto:
+    tables_ok, contract_ok, atom_ok, union_ok, product_ok are expected to hold on the shipped universe and are
+    reported as problems when they do not; fixed_honest is returned separately (it fails exactly on the known
+    finding).  Returns (problems, list of fixed_honest failures)."""
+    from comb_spec_searcher.utils import compositions
+
+    bad, dishonest = [], []
+    terms = {c: [dict(spec.rules_dict[c].get_terms(m)) for m in range(upto + 1)] for c in classes}
+
+    def image(pnames, cnames, ep, q):
+        return tuple(q[cnames.index(ep[pv])] if pv in ep else 0 for pv in pnames)
+
+    for c in classes:
+        rule = spec.rules_dict[c]
+        kind = rule_kind(rule)
+        pnames = list(c.extra_parameters)
+        mn = c.minimum_size_of_object()
+        if len(set(pnames)) != len(pnames):
+            bad.append("tables_ok: repeated parameter name at %r" % (c,))
+        if mn < 0:
+            bad.append("contract_ok: negative minimum size at %r" % (c,))
+        for m, tab in enumerate(terms[c]):
+            for q, v in tab.items():
+                if v < 0 or len(q) != len(pnames):
+                    bad.append("tables_ok / arity_ok: entry %r: %r of %r at size %d" % (q, v, c, m))
+                if not v:
+                    continue
+                if m < mn or (c.is_atom() and m != mn):
+                    bad.append("contract_ok: %r has objects of size %d" % (c, m))
+                for k, x in zip(pnames, q):
+                    lo = c.get_minimum_value(k)
+                    if x < lo or (c.is_atom() and x != lo):
+                        bad.append("contract_ok: %r has objects with %s = %d, get_minimum_value %d" % (c, k, x, lo))
+        kids = list(rule.children)
+        if kind == K_ATOM:
+            want = tuple(c.get_minimum_value(k) for k in pnames)
+            for m, tab in enumerate(terms[c]):
+                if {q: v for q, v in tab.items() if v} != ({want: 1} if m == mn else {}):
+                    bad.append("atom_ok: %r at size %d has terms %r" % (c, m, tab))
+        elif kind in (K_UNION, K_PRODUCT):
+            cons = rule.constructor
+            eps = [dict(ep) for ep in cons.extra_parameters]
+            if len(eps) != len(kids):
+                bad.append("%r: %d dictionaries for %d children" % (c, len(eps), len(kids)))
+                continue
+            for ch, ep in zip(kids, eps):
+                cn = list(ch.extra_parameters)
+                if not set(ep) <= set(pnames) or not set(ep.values()) <= set(cn):
+                    bad.append("wf_dict: %r -> %r: %r" % (c, ch, ep))
+            if kind == K_UNION:
+                fixed = [dict(fx) for fx in cons.fixed_values]
+                if len(fixed) != len(kids):
+                    bad.append("union_ok: %r: %d fixed_values for %d children" % (c, len(fixed), len(kids)))
+                    continue
+                for ch, ep, fx in zip(kids, eps, fixed):
+                    cn = list(ch.extra_parameters)
+                    if not set(fx) <= set(cn) or not set(cn) <= set(ep.values()) | set(fx):
+                        bad.append("union_ok: child %r of %r: parameters %r, images %r, fixed %r" % (ch, c, cn, ep, fx))
+                        continue
+                    for m in range(upto + 1):
+                        for q, v in terms[ch][m].items():
+                            if v and any(q[cn.index(k)] != x for k, x in fx.items()):
+                                dishonest.append("fixed_honest fails at %r -> %r: fixed %r but the child has %d objects of "
+                                                 "size %d with parameters %r" % (c, ch, fx, v, m, q))
+                for m in range(upto + 1):
+                    tot = {}
+                    for ch, ep in zip(kids, eps):
+                        cn = list(ch.extra_parameters)
+                        for q, v in terms[ch][m].items():
+                            key = image(pnames, cn, ep, q)
+                            tot[key] = tot.get(key, 0) + v
+                    if {q: v for q, v in tot.items() if v} != {q: v for q, v in terms[c][m].items() if v}:
+                        bad.append("union_ok: get_terms recurrence fails at %r size %d" % (c, m))
+            else:
+                if not kids:
+                    bad.append("product_ok: %r has no child" % (c,))
+                    continue
+                for ch, ep in zip(kids, eps):
+                    if not set(ch.extra_parameters) <= set(ep.values()):
+                        bad.append("product_ok: child %r of %r has a parameter no parent parameter maps to" % (ch, c))
+                mins = tuple(ch.minimum_size_of_object() for ch in kids)
+                maxs = tuple(ch.minimum_size_of_object() if ch.is_atom() else None for ch in kids)
+                if mn > sum(mins):
+                    bad.append("product_ok: declared minimum size of %r above the children's" % (c,))
+                for k in pnames:
+                    if c.get_minimum_value(k) > sum(ch.get_minimum_value(ep[k]) for ch, ep in zip(kids, eps) if k in ep):
+                        bad.append("product_ok: declared minimum of %s at %r above the children's" % (k, c))
+                for m in range(upto + 1):
+                    tot = {}
+                    for comp in compositions(m, len(kids), mins, maxs):
+                        for combo in itertools.product(*[list(terms[ch][s].items()) for ch, s in zip(kids, comp)]):
+                            key = [0] * len(pnames)
+                            w = 1
+                            for (ch, ep), (q, v) in zip(zip(kids, eps), combo):
+                                img = image(pnames, list(ch.extra_parameters), ep, q)
+                                key = [a + b for a, b in zip(key, img)]
+                                w *= v
+                            tot[tuple(key)] = tot.get(tuple(key), 0) + w
+                    if {q: v for q, v in tot.items() if v} != {q: v for q, v in terms[c][m].items() if v}:
+                        bad.append("product_ok: get_terms recurrence fails at %r size %d" % (c, m))
+        elif kind == -1:
+            bad.append("rule of %r is neither atom, empty, union nor product" % (c,))
+    return (["hypothesis of C08_uniform_params does not hold on this specification: " + b for b in bad[:2]],
+            dishonest)
+
+
 def impl_spec(case):
     from comb_spec_searcher.exception import InvalidOperationError
 
@@ -978,9 +1221,11 @@ def impl_spec(case):
         out.append(steps_out)
     else:
         items, index = stat_items(spec, upto)
+        items_out = []
+        out.append(items_out)
         for item, (c, n, params) in zip(items, index):
             ans = run_real_item(spec, c, n, params, item)
-            out.append(ans)
+            items_out.append(ans)
             if len({json.dumps(a[0]) for a in ans if a[0][0] == 0}) >= 2:
                 obs["tags"].add("union2" if item["t"] == "u" else "product2")
             if item["t"] == "u" and any(len(ep) < len(item["pvars"]) for ep in item["eps"]):
@@ -989,6 +1234,10 @@ def impl_spec(case):
                 obs["tags"].add("merged")
     if k == "words":
         obs["problems"].extend(check_hypotheses(spec, classes, label, upto))
+    else:
+        hyp_problems, dishonest = check_hypotheses_params(spec, classes, upto)
+        obs["problems"].extend(hyp_problems)
+        obs["tags"].add("fixed-dishonest" if dishonest else "hypotheses-hold")
     # ---- exact composition to the distribution on objects, against brute force
     comp = Composer(spec)
     for n in range(upto + 1):
@@ -1040,8 +1289,7 @@ def impl_spec(case):
                     enum_out.append([trace, [0, tree]])
                 else:
                     enum_out.append([trace, [1, res[1]]])
-            if k == "words":
-                out.append(enum_out)
+            out.append(enum_out)     # compared with the model's `enum` (words: sample; stats: psample)
             if objs:
                 why = check_uniform(dist, objs, "whole-sequence enumeration, size %d %r" % (n, params))
                 if why:
@@ -1066,6 +1314,27 @@ def impl_spec(case):
                 except BaseException as ex:  # pylint: disable=broad-except
                     r = [1, err_code(ex)]
             out.append([[r, src.trace, len(ds) - src.pos]])
+    else:
+        for n, ds in stat_draws(case):
+            params = root_params(spec, n)[0][0]
+            src = Source(ds)
+            with patched(src):
+                try:
+                    obj, tree = sample_with_tree(spec, classes, label, state, n, params)
+                    r = [0, tree]
+                    if obj not in set(spec.root.objects_of_size(n)) or (
+                            spec.root.extra_parameters
+                            and dict(zip(spec.root.extra_parameters, spec.root.get_parameters(obj))) != params):
+                        obs["problems"].append("draws %r at size %d %r returned %r, not an object with these parameters"
+                                               % (ds, n, params, obj))
+                except BaseException as ex:  # pylint: disable=broad-except
+                    r = [1, err_code(ex)]
+            out.append([[r, src.trace, len(ds) - src.pos]])
+        paths = path_rules(spec, describe_stats(spec, 0)[2])
+        for _inp, real in paths:
+            out.append(real)
+        if paths:
+            obs["tags"].add("path-rule")
     return {"out": out, "problems": obs["problems"][:5], "tags": sorted(obs["tags"]), "rules": len(classes)}
 
 
@@ -1166,6 +1435,9 @@ def finding_match(case, why):
         return None            # e.g. a wrong count, a foreign object, another exception: not this finding
     spec = get_spec("stats", case["cls"])
     if isinstance(spec, tuple) or not _untracked_child_statistic(spec):
+        return None
+    # ... and it is exactly the situation the hypothesis fixed_honest of C08_uniform_params rules out
+    if not check_hypotheses_params(spec, spec_classes(spec), case["N"])[1]:
         return None
     return FINDING_EQPATH
 
